@@ -38,8 +38,8 @@ EXTENDS TopologyGuards, Json
 
 CONSTANTS
     NPods,        \* pods per batch
-    Archs,        \* archetype ids the batch is drawn from (subset of 1..24)
-    Layouts,      \* existing-state ids (subset of 0..9)
+    Archs,        \* archetype ids the batch is drawn from (subset of 1..32)
+    Layouts,      \* existing-state ids (subset of 0..13)
     MaxClaims,    \* new NodeClaims per pass
     W_AllDomains, W_Inverse, W_Certain, W_Bootstrap, W_Slack, W_Exclude, W_MatchKeys, W_MinDomains, W_Policies,
     W_Guard       \* TRUE: placements are guarded; FALSE (Topology_Free.cfg): ANY placement - exercises both directions of Inv_C02_Forms
@@ -96,6 +96,16 @@ Arch(a, name) ==
       \* namespaces list AND namespaceSelector on one term (union: the list names "other", the selector picks "default")
       [] a = 23 -> [p EXCEPT !.anti = <<[Term("zone", "x") EXCEPT !.ns = <<"other">>, !.nsSel = [tier |-> "dev"]]>>]
       [] a = 24 -> [App(p, "s") EXCEPT !.spread = <<[Spr("zone", 1) EXCEPT !.minDomains = 2]>>]   \* minDomains 2 = the number of zones
+      \* ONE term / constraint (same key, selector, namespace = one topology group) carried by pods with DIFFERENT labels:
+      \* the carrier matches the selector (26, 29, 31; 7 for spread) / does not (25, 28, 30, 32) / a matcher carries nothing (27; 18)
+      [] a = 25 -> [App(p, "g") EXCEPT !.anti = <<Term("host", "d")>>]                 \* guard: hostname anti-affinity against app=d
+      [] a = 26 -> [App(p, "d") EXCEPT !.anti = <<Term("host", "d")>>]                 \* db: the SAME term, and matched by it
+      [] a = 27 -> App(p, "d")                                                         \* app=d without any term
+      [] a = 28 -> [App(p, "g") EXCEPT !.anti = <<Term("zone", "d")>>]                 \* guard, zone
+      [] a = 29 -> [App(p, "d") EXCEPT !.anti = <<Term("zone", "d")>>]                 \* db, zone
+      [] a = 30 -> [App(p, "g") EXCEPT !.aff = <<Term("zone", "d")>>]                  \* affinity to app=d carried by a pod it does not match
+      [] a = 31 -> [App(p, "d") EXCEPT !.aff = <<Term("zone", "d")>>]                  \* the SAME affinity term carried by a pod it matches
+      [] a = 32 -> [App(p, "n") EXCEPT !.spread = <<Spr("zone", 1)>>]                  \* the spread constraint of 7 carried by a pod it does not select
 PodName(i) == "w" \o ToString(i)
 Batches == {s \in [1..NPods -> Archs] : \A i \in 1..(NPods - 1) : s[i] <= s[i + 1]}
 
@@ -123,6 +133,11 @@ Layout(i) ==
       [] i = 7 -> [nodes |-> <<NodeRec("n1", "a", <<Dedicated>>, FALSE), N2>>, pods |-> <<App(R0("r1", "n1"), "s"), App(R0("r2", "n1"), "s")>>]  \* tainted node
       [] i = 8 -> [nodes |-> <<N1>>, pods |-> <<[App(R0("r1", "n1"), "x") EXCEPT !.ns = "other"]>>]                    \* app=x in the other namespace
       [] i = 9 -> [nodes |-> <<N1, N2>>, pods |-> <<[App(R0("r1", "n2"), "h") EXCEPT !.anti = <<Term("host", "h")>>], App(R0("r2", "n1"), "f")>>]
+      \* running carriers of the shared terms
+      [] i = 10 -> [nodes |-> <<N1, N2>>, pods |-> <<[App(R0("r1", "n1"), "g") EXCEPT !.anti = <<Term("host", "d")>>]>>]    \* running guard (hostname)
+      [] i = 11 -> [nodes |-> <<N1, N2>>, pods |-> <<[App(R0("r1", "n1"), "d") EXCEPT !.anti = <<Term("host", "d")>>]>>]    \* running db (hostname)
+      [] i = 12 -> [nodes |-> <<N1>>, pods |-> <<[App(R0("r1", "n1"), "g") EXCEPT !.anti = <<Term("zone", "d")>>]>>]        \* running guard (zone)
+      [] i = 13 -> [nodes |-> <<N1, N2>>, pods |-> <<App(R0("r1", "n1"), "d"), [App(R0("r2", "n2"), "n") EXCEPT !.spread = <<Spr("zone", 1)>>]>>]  \* running app=d / non-selected carrier
 
 Scenario(lay, batch) ==
     [name |-> "tlc-topo-" \o ToString(lay) \o "-" \o ToString(batch),
